@@ -834,7 +834,16 @@ func (fc *funcConverter) convertBlock(astFunc *AstFunc, ssaBlock *ssa.BasicBlock
 					if valHasRefs {
 						astFunc.Vars[valName] = valType
 					}
-					commStmt = ah.AssignStmt(ast.NewIdent(valName), &ast.UnaryExpr{Op: token.ARROW, X: chanExpr})
+					lhs := []ast.Expr{ast.NewIdent(valName)}
+					if okHasRefs {
+						// The second tuple element of ssa.Select, for "v, ok := <-ch" cases.
+						lhs = append(lhs, ast.NewIdent(okName))
+					}
+					commStmt = &ast.AssignStmt{
+						Lhs: lhs,
+						Tok: token.ASSIGN,
+						Rhs: []ast.Expr{&ast.UnaryExpr{Op: token.ARROW, X: chanExpr}},
+					}
 					recvIndex++
 				default:
 					return fmt.Errorf("not supported select chan dir %d: %w", state.Dir, ErrUnsupported)
